@@ -8,6 +8,7 @@
 mod bfs;
 mod ctx;
 mod driver;
+mod env;
 mod fork;
 mod gen;
 mod oracles;
